@@ -19,6 +19,8 @@ pub const APP: &str = "dsim app";
 pub enum Hung {
     Settle,
     Run,
+    /// a helper thread of the node died (injected crash or panic)
+    ThreadDied,
 }
 
 pub struct SimNode {
@@ -40,6 +42,8 @@ pub struct SimNode {
     pub events: Option<broadcast::Receiver<Event>>,
     pub starts: u32,
     pub settle_turns: u64,
+    /// helper threads alive right after start (reader(s) + writer + verifier)
+    pub expected_threads: isize,
 }
 
 /// wall-clock limit for one settle / run before the harness declares the node hung
@@ -94,6 +98,7 @@ impl SimNode {
             events: None,
             starts: 0,
             settle_turns: 0,
+            expected_threads: 0,
         }
     }
 
@@ -161,7 +166,15 @@ impl SimNode {
                 self.private_room = room;
                 self.events = Some(sub);
                 self.services = Some(sv);
+                self.expected_threads = 0;
                 let _ = self.settle();
+                // reader thread(s) + writer thread + one signature verification thread; wait until all registered
+                let want = self.cfg.parallelism as isize + 2;
+                let t0 = Instant::now();
+                while dv::live_threads(self.idx) < want && t0.elapsed() < Duration::from_secs(10) {
+                    std::thread::sleep(Duration::from_micros(100));
+                }
+                self.expected_threads = want;
                 Ok(())
             }
             Err(e) => {
@@ -213,6 +226,7 @@ impl SimNode {
     pub fn settle(&mut self) -> Result<u64, Hung> {
         self.activate();
         let idx = self.idx;
+        let expected = self.expected_threads;
         let rt = self.rt.as_ref().expect("node is down");
         let r = rt.block_on(async {
             let m = tokio::runtime::Handle::current().metrics();
@@ -237,6 +251,13 @@ impl SimNode {
                     return Ok(turns);
                 }
                 std::thread::yield_now();
+                if expected > 0 && dv::live_threads(idx) < expected {
+                    // let the consequences of the death (closed channels) propagate, then report
+                    for _ in 0..16 {
+                        tokio::task::yield_now().await;
+                    }
+                    return Err(Hung::ThreadDied);
+                }
                 if turns % 1024 == 0 && t0.elapsed() > hang_limit() {
                     return Err(Hung::Settle);
                 }
@@ -254,6 +275,8 @@ impl SimNode {
         fut: impl Future<Output = T> + Send + 'static,
     ) -> Result<T, Hung> {
         self.activate();
+        let idx = self.idx;
+        let expected = self.expected_threads;
         let rt = self.rt.as_ref().expect("node is down");
         let r = rt.block_on(async move {
             let h = tokio::spawn(fut);
@@ -263,6 +286,19 @@ impl SimNode {
                 tokio::task::yield_now().await;
                 std::thread::yield_now();
                 turns += 1;
+                if expected > 0 && dv::live_threads(idx) < expected {
+                    for _ in 0..64 {
+                        tokio::task::yield_now().await;
+                        if h.is_finished() {
+                            break;
+                        }
+                    }
+                    if !h.is_finished() {
+                        h.abort();
+                        return Err(Hung::ThreadDied);
+                    }
+                    break;
+                }
                 if turns % 1024 == 0 && t0.elapsed() > hang_limit() {
                     h.abort();
                     return Err(Hung::Run);
